@@ -905,6 +905,32 @@ func (a *Analysis) CheckC06(rep *Report) {
 			rep.Ob("A4-messages-own-their-memory-verified-by-C16", "all-types", true, "", "")
 		}
 	}
+	// A5: "what an encode appends depends only on the message" also rules out everything that outlives the call: a
+	// pad table an earlier encode wrote into through spare capacity, a memo kept by a checksum service, a counter. No
+	// state shared between calls is what C20 decides (for every function reachable from Encode and Decode alike); that
+	// a checksum service answers from its input alone is C14's H2.
+	{
+		scratch := NewReport("C20", "other", "quick", 0)
+		a.CheckC20(scratch, "quick")
+		for _, v := range scratch.Violations {
+			rep.Ob("A5-no-state-between-calls-verified-by-C20", v.Key, false, v.Pos, "state shared between codec calls (C20): what an encode appends can then depend on earlier calls: "+v.Msg)
+		}
+		if len(scratch.Violations) == 0 {
+			rep.Ob("A5-no-state-between-calls-verified-by-C20", "whole-module", true, "", "")
+		}
+		scratch = NewReport("C14", "other", "quick", 0)
+		a.CheckC14(scratch)
+		n14 := 0
+		for _, v := range scratch.Violations {
+			if strings.HasPrefix(v.Rule, "H2-") || strings.HasPrefix(v.Rule, "H1-") {
+				n14++
+				rep.Ob("A5-checksum-services-stateless-verified-by-C14", v.Key, false, v.Pos, "a checksum service does not answer from its input alone (C14 "+v.Rule+"): the frame's trailer can then depend on earlier calls: "+v.Msg)
+			}
+		}
+		if n14 == 0 {
+			rep.Ob("A5-checksum-services-stateless-verified-by-C14", "all-services", true, "", "")
+		}
+	}
 	rep.Counts["encode_paths"] = npaths
 	rep.Counts["events"] = nev
 	rep.Floor("codec_types", len(a.U.Types), goldenFloor("types", 170))
